@@ -257,4 +257,15 @@ theorem ical_dst_eq (comps : List ZComp) (hne : comps ≠ []) (cache : Cache) (h
   rw [findComp_eq comps hne cache w f fold att h0 h1, (findCompCached_spec comps cache w fold hinv).1]
   generalize comps.getD (findCompIdx comps w fold) default = c
   cases h : c.isdst <;> simp [Except.bind, DtPy.attr, h, tdSeconds]
+
+/-- `_tzicalvtz.tzname`: the TZNAME (an uninterpreted field `names` of the component objects) of the component the
+    model's selection picks -/
+theorem ical_tzname_eq (comps : List ZComp) (names : ZComp → Option (List Char)) (hne : comps ≠ []) (cache : Cache)
+    (hinv : CacheInv comps cache) (w f : Int) (fold att : Bool) (h0 : 0 ≤ f) (h1 : f < M) :
+    Gen.tzicalvtz_tzname comps names (cdOf f cache) (ccOf comps cache) (D w f fold att) =
+      .ok (names (comps.getD (findCompIdx comps w fold) default),
+           cdOf f (findCompCached comps cache w fold).2, ccOf comps (findCompCached comps cache w fold).2) := by
+  unfold Gen.tzicalvtz_tzname
+  rw [findComp_eq comps hne cache w f fold att h0 h1, (findCompCached_spec comps cache w fold hinv).1]
+  simp [Except.bind, DtPy.attr]
 end TzGen
